@@ -227,6 +227,48 @@ func (g *c09gen) page() c09page {
 	return p
 }
 
+// directed builds pages that run before the random ones: two or three columns of full lines and one wide
+// centred line that crosses the gutters at a chosen distance above the body, below it, or between two of its lines.
+func (g *c09gen) directed() []c09page {
+	var out []c09page
+	for _, ncol := range []int{2, 3} {
+		for _, dy := range []int{4, 10, 16, 20, 21, 30, 60, -4, -12, -20, -40, 1000} {
+			p := c09page{w: 612, h: 792, kind: fmt.Sprintf("%dcol+wide-line@%d", ncol, dy)}
+			add := func(s string, x, y, w, h float64) {
+				p.frags = append(p.frags, text.TextFragment{Text: s, X: x, Y: y, Width: w, Height: h, FontSize: h, FontName: "F1", Direction: text.LTR})
+				p.tokens = append(p.tokens, c09Tok.FindAllString(s, -1)...)
+			}
+			gap := 30.0
+			colW := (612 - 100 - gap*float64(ncol-1)) / float64(ncol)
+			top, rows := 640.0, 10
+			for c := 0; c < ncol; c++ {
+				x0 := 50 + float64(c)*(colW+gap)
+				for rw := 0; rw < rows; rw++ {
+					x := x0
+					for x+40 <= x0+colW {
+						add(g.tok(), x, top-14*float64(rw), 36, 10)
+						x += 42
+					}
+				}
+			}
+			bottom := top - 14*float64(rows-1)
+			y := top + float64(dy)
+			switch {
+			case dy == 1000:
+				y = top - 14*4 - 7 // between two body lines
+			case dy < 0:
+				y = bottom + float64(dy)
+			}
+			// the wide line: words side by side from 30% to 70% of the page width, one of them over each gutter
+			for x := 170.0; x+40 <= 450; x += 44 {
+				add(g.tok(), x, y, 40, 12)
+			}
+			out = append(out, p)
+		}
+	}
+	return out
+}
+
 // c09Diff compares the tokens found with the tokens of the page (as multisets, duplicate layer aside).
 func c09Diff(found []string, want []string, dupLayer bool) string {
 	fc, wc := map[string]int{}, map[string]int{}
@@ -286,8 +328,14 @@ func init() {
 		if thorough {
 			n = 3000
 		}
-		for it := 0; it < n; it++ {
-			p := g.page()
+		dir := (&c09gen{rng: NewRNG(0xC09D), n: 500000}).directed()
+		for it := -len(dir); it < n; it++ {
+			var p c09page
+			if it < 0 {
+				p = dir[it+len(dir)]
+			} else {
+				p = g.page()
+			}
 			res := layout.NewAnalyzer().Analyze(p.frags, p.w, p.h)
 			_ = strings.Contains(p.kind, "+dup")
 			chars := strings.Contains(p.kind, "+chars")
